@@ -16,6 +16,7 @@ ASSUMPTIONS = ["Util::generateUuid returns distinct values"]
 
 
 def run(ctx):
+    resume_follows_clear(ctx, "C06")
     saved_context_is_a_copy(ctx, "C06")
     detector_walk_every_tick(ctx, "C06")
     # locals / parameters the rules below refer to by name (a rename makes the analysis 'broken', never a violation)
@@ -199,7 +200,7 @@ def run(ctx):
                 for i in rac:
                     ctx.check(fg.must(i, "guard"), "scope-guard-before-chain", "must_precede", impl.loc(i),
                               "the guard is armed before actions run", "actions can run before the guard is armed")
-    ctx.check(lam_ok, "scope-guard-clears-context", "anchor", impl.loc(),
+    ctx.check(lam_ok, "scope-guard-clears-context", "scope-guard effect", impl.loc(),
               "scope guard clears action context, invoking ruleset and ruleset cgroup",
               "no scope guard in runOnceImpl clears action context, invoking ruleset and ruleset cgroup")
 
